@@ -1,2 +1,3 @@
 
 pub mod push_model;
+pub mod ids;
